@@ -10,10 +10,10 @@ import (
 const shouldAddOne = "(Rounder).ShouldAddOne"
 
 func init() {
-	register(&Rule{ID: "C01.R1", Min: 3,
+	register(&Rule{ID: "C01.R1", Min: 2,
 		Text: "ORIGIN: the neg argument of every Rounder.ShouldAddOne call originates in the Negative field of a parameter-rooted Decimal (the sign of the number being rounded); a constant, a never-assigned local field or a coefficient sign test does not count",
 		Run:  ruleNegOrigin})
-	register(&Rule{ID: "C01.R2", Min: 6,
+	register(&Rule{ID: "C01.R2", Min: 3,
 		Text: "the whole discarded part is used: in every function that both divides with remainder and decides a rounding, the remainder is what the half argument of ShouldAddOne is compared from, and every path on which the remainder is non-zero raises Inexact or feeds the remainder into the coefficient",
 		Run:  ruleRemainderUsed})
 }
